@@ -78,11 +78,17 @@ theorem remI64_ok (s span : Int) (hp : 0 < span) : remI64 s span = .ok (Int.tmod
 theorem tieUp_eq (a b : Int) : tieUp a b = decide (a ≤ b) := by
   simp [tieUp, TIE_UP]
 
-theorem guard_false (span : Int) (hp : 0 < span) : ¬ span ≤ SPAN_REFUSED_MAX := by
-  simp only [SPAN_REFUSED_MAX]; omega
+theorem tieUpSubsec_eq (a b : Int) : tieUpSubsec a b = decide (a ≤ b) := by
+  simp [tieUpSubsec, TIE_UP_SUBSEC]
 
-theorem guard_true (span : Int) (hp : span ≤ 0) : span ≤ SPAN_REFUSED_MAX := by
-  simp only [SPAN_REFUSED_MAX]; omega
+/-- the three guards are `span <= 0` (constants extracted per function) -/
+theorem guard_false (span : Int) (hp : 0 < span) :
+    ¬ span ≤ SPAN_REFUSED_MAX_ROUND ∧ ¬ span ≤ SPAN_REFUSED_MAX_TRUNC ∧ ¬ span ≤ SPAN_REFUSED_MAX_UP := by
+  simp only [SPAN_REFUSED_MAX_ROUND, SPAN_REFUSED_MAX_TRUNC, SPAN_REFUSED_MAX_UP]; omega
+
+theorem guard_true (span : Int) (hp : span ≤ 0) :
+    span ≤ SPAN_REFUSED_MAX_ROUND ∧ span ≤ SPAN_REFUSED_MAX_TRUNC ∧ span ≤ SPAN_REFUSED_MAX_UP := by
+  simp only [SPAN_REFUSED_MAX_ROUND, SPAN_REFUSED_MAX_TRUNC, SPAN_REFUSED_MAX_UP]; omega
 
 theorem absI64_neg (x : Int) (h1 : -9223372036854775808 < x) (h2 : x < 0) :
     Delta.absI64 x = .ok (-x) := by
@@ -95,7 +101,7 @@ theorem trunc_eval (s span : Int) (hp : 0 < span) (hp2 : span ≤ 92233720368547
   obtain ⟨hr0, hr1⟩ := emod_bounds s span hp
   have ht := tmod_of_emod s span hp
   unfold duration_trunc
-  simp only [remI64_ok s span hp, if_neg (guard_false span hp), shift_eq]
+  simp only [remI64_ok s span hp, if_neg (guard_false span hp).2.1, shift_eq]
   generalize s % span = r at *
   generalize Int.tmod s span = dd at *
   by_cases hz : r = 0
@@ -123,7 +129,7 @@ theorem up_eval (s span : Int) (hp : 0 < span) (hp2 : span ≤ 92233720368547758
   have ht := tmod_of_emod s span hp
   have hn := neg_emod' s span hp
   unfold duration_round_up
-  simp only [remI64_ok s span hp, if_neg (guard_false span hp), shift_eq]
+  simp only [remI64_ok s span hp, if_neg (guard_false span hp).2.2, shift_eq]
   generalize (-s) % span = u at *
   generalize s % span = r at *
   generalize Int.tmod s span = dd at *
@@ -155,7 +161,7 @@ theorem round_eval (s span : Int) (hp : 0 < span) (hp2 : span ≤ 92233720368547
   have ht := tmod_of_emod s span hp
   have hn := neg_emod' s span hp
   unfold duration_round
-  simp only [remI64_ok s span hp, if_neg (guard_false span hp), shift_eq, tieUp_eq]
+  simp only [remI64_ok s span hp, if_neg (guard_false span hp).1, shift_eq, tieUp_eq]
   generalize (-s) % span = u at *
   generalize s % span = r at *
   generalize Int.tmod s span = dd at *
@@ -196,11 +202,13 @@ theorem run_span_none (op : Op) (st : Option Int) : run op st none = .ok (.err .
 
 theorem run_span_nonpos (op : Op) (st : Option Int) (span : Int) (h : span ≤ 0) :
     run op st (some span) = .ok (.err .DurationExceedsLimit) := by
-  cases op <;> simp only [run, duration_trunc, duration_round, duration_round_up, if_pos (guard_true span h)]
+  cases op <;> simp only [run, duration_trunc, duration_round, duration_round_up,
+    if_pos (guard_true span h).1, if_pos (guard_true span h).2.1, if_pos (guard_true span h).2.2]
 
 theorem run_stamp_none (op : Op) (span : Int) (h : 0 < span) :
     run op none (some span) = .ok (.err .TimestampExceedsLimit) := by
-  cases op <;> simp only [run, duration_trunc, duration_round, duration_round_up, if_neg (guard_false span h)]
+  cases op <;> simp only [run, duration_trunc, duration_round, duration_round_up,
+    if_neg (guard_false span h).1, if_neg (guard_false span h).2.1, if_neg (guard_false span h).2.2]
 
 /-- all three operations, evaluated, in terms of the specification -/
 theorem run_eval (op : Op) (s span : Int) (hp : 0 < span) (hp2 : span ≤ 9223372036854775807) :
